@@ -171,6 +171,8 @@ SemOfQ(qn) == CHOOSE s \in Sems : SemQ(s) = qn
     [] g = "mq" -> mq
 #! FAITHFUL
 , "semc", "mq"
+#! CALLLABELS
+, mpmc_fifo_trypop |-> {"wk1"}
 #! FNPROC
 ,
            fiber_semaphore_wait |-> {"sem_wait"},
